@@ -76,6 +76,8 @@ def replay(ctx, binp, runs, label, timeout="2s"):
     out = os.path.join(ctx.scratch, "replay-%s.json" % label)
     ctx.run([binp, "replay", "-in", runs, "-out", out, "-timeout", timeout, "-workers", str(max(2, ctx.cores - 2))])
     res = json.load(open(out))
+    import glob
+    res["nodetraces"] = sorted(glob.glob(out + ".nodetrace.*"))
     res["history_file"] = out + ".history.ndjson"
     res["runs_file"] = runs
     ctx.replayed += res["behaviours"]
@@ -114,7 +116,7 @@ def findings_reached(ctx, pid, runs, res, origin):
                 exp = st.get("exp")
                 if not exp:
                     continue
-                false = [i for i in PROP_INVS[pid] if exp["inv"].get(i) is False]
+                false = [i for i in PROP_INVS[pid] if (exp.get("inv") or {}).get(i) is False]
                 if not false:
                     continue
                 kf = sorted(exp.get("kf") or [])
@@ -152,6 +154,17 @@ def report(ctx, pid, res, origin):
     other = 0
     for i, mm in enumerate(res.get("mismatches") or []):
         p = ctx.save_replay("%s-%d.json" % (origin, i), mm)
+        beh = mm.get("behaviour") or []
+        k = mm.get("step", 0)
+        before = sorted(((beh[k - 1].get("exp") or {}).get("kf") or [])) if 0 < k <= len(beh) else []
+        listed = {f.get("id") for f in vf.load_known_findings().get("findings", [])}
+        if before and all(x in listed for x in before):
+            # the trigger of a recorded defect occurred earlier in this behaviour: from there on the real nodes are
+            # in a state the specification does not define (e.g. a follower that lost an entry it had acknowledged)
+            ctx.log("deviation after the trigger of known finding(s) %s (not judged): step %d (%s) field '%s': %s" %
+                    (before, k, mm["action"], mm["field"], mm["what"][:300]))
+            ctx.notes["deviations_after_known_finding"] = ctx.notes.get("deviations_after_known_finding", 0) + 1
+            continue
         if mm["field"] in FIELDS[pid]:
             ctx.violation("real nodes deviate from OxiaShard.tla at step %d (%s), field '%s': %s" %
                           (mm["step"], mm["action"], mm["field"], mm["what"][:1500]), p)
@@ -364,6 +377,129 @@ def linearizable(ctx, res, origin):
     ctx.log("%d client histories accepted as linearizable by LinTrace [%s]" % (accepted, origin))
 
 
+# which property an event of the controllers' trace speaks for (first rejected event decides)
+NODE_EVENTS = {
+    "C03": {"FAck", "FAppend", "FTruncate", "FSnapshot"},
+    "C04": {"FNewTerm", "LNewTerm", "FAppend", "LAlloc", "FTruncate", "LBecome"},
+    "C05": {"FNewTerm", "LNewTerm", "LBecome"},
+    "C07": {"FApply", "LApply", "FSnapshot"},
+    "C08": {"LAlloc", "LSynced", "LApply", "TCommit", "LAppendFail"},
+}
+
+
+def validate_node_traces(ctx, pid, files, origin):
+    """code -> spec for the storage nodes: event traces written by the controllers (hooks at their
+    linearization points) are validated by TLC against the node-local rules (OxiaNodeTrace.tla)."""
+    ok_files = 0
+    events = 0
+    for i, f in enumerate(files):
+        if not os.path.exists(f) or os.path.getsize(f) == 0:
+            continue
+        lines = open(f).read().splitlines()
+        r = ctx.tlc("OxiaNodeTrace", "node-trace.cfg", files=[(f, "trace.ndjson")], workers=1, deque=True,
+                    label="nodetrace-%s-%d" % (origin, i), seed=False, allow_violation=True, timeout=600)
+        if r.ok:
+            ok_files += 1
+            events += len(lines)
+            continue
+        hw = 0
+        for l in r.out.splitlines():
+            if l.startswith('<<"REJECTED"'):
+                hw = int(l.split(",")[1])
+        bad = max(0, min(hw, len(lines)) - 1)
+        ev = json.loads(lines[bad])
+        inst = ev.get("i")
+        hist = [json.loads(x) for x in lines[:bad + 1] if json.loads(x).get("i") == inst][-12:]
+        p = ctx.save_replay("nodetrace-%s-%d.json" % (origin, i), {"rejected": ev, "instance_history": hist})
+        if ev.get("ev") in NODE_EVENTS.get(pid, set()):
+            ctx.violation("an event of the real controllers is not a step of the node rules (OxiaNodeTrace.tla): %s; "
+                          "previous events of that controller: %s" % (json.dumps(ev), json.dumps(hist[:-1])[:900]), p)
+        else:
+            ctx.log("controller trace rejected at an event not attributed to %s: %s" % (pid, json.dumps(ev)[:300]))
+            ctx.notes.setdefault("unattributed_trace_rejections", []).append(ev.get("ev"))
+    ctx.traces_validated += ok_files
+    ctx.log("controller event traces [%s]: %d files (%d events) accepted by OxiaNodeTrace" % (origin, ok_files, events))
+    return ok_files
+
+
+def repo_test_traces(ctx, pid):
+    """The repository's own server tests, built with the verif tag, write the controllers' event trace;
+    TLC evaluates the node rules on every step of what the tests already exercise."""
+    tf = os.path.join(ctx.scratch, "servertests.ndjson")
+    env = ctx.goenv()
+    env["VERIF_TRACE"] = tf
+    import subprocess
+    try:
+        p = subprocess.run(["go", "test", "-tags", "verif", "-count=1", "-vet=off", "-timeout", "300s", "./server/"],
+                           cwd=vf.REPO, env=env, capture_output=True, text=True, timeout=400)
+    except subprocess.TimeoutExpired:
+        ctx.log("repository server tests timed out under the verif tag (skipped)")
+        return
+    if p.returncode != 0:
+        ctx.log("repository server tests fail under the verif tag (not judged here): %s" % p.stdout[-300:])
+    validate_node_traces(ctx, pid, [tf], "repotests")
+
+
+def replay_file(ctx, pid, path):
+    """bin/check <id> <tier> --replay <file>: re-execute a stored counterexample (a behaviour of the specification
+    with its expectations, or a race case) on the real nodes of the current tree."""
+    d = json.load(open(path))
+    binp = ctx.go_build("shardsim")
+    if "behaviour" in d:
+        beh = d["behaviour"]
+        # expectations of the CURRENT specification for the same action sequence (Idle steps dropped)
+        script = []
+        for st in beh:
+            if st["a"] == "Idle":
+                continue
+            sc = {k: st[k] for k in ("a", "n", "l", "f", "t", "v", "from", "to") if k in st}
+            if st["a"] == "BecomeLeader" and isinstance(st.get("fm"), dict):
+                sc["fs"] = sorted(set(st["fm"].keys()) | {st["n"]})
+            script.append(sc)
+        fresh = script_to_behaviour(ctx, script, "replay")
+        if len(fresh) == len(script):
+            beh = fresh
+            ctx.log("the current specification follows all %d actions; its expectations are used" % len(script))
+        else:
+            ctx.log("the current specification follows %d of %d actions (%s is not enabled): stored expectations are used"
+                    % (len(fresh), len(script), describe(script[len(fresh)]) if len(fresh) < len(script) else ""))
+        runs = os.path.join(ctx.scratch, "one.ndjson")
+        open(runs, "w").write(json.dumps(beh) + "\n")
+        res = replay(ctx, binp, runs, "replay")
+        report(ctx, pid, res, "replay")
+        findings_reached(ctx, pid, runs, res, "replay")
+    elif "rejected" in d:
+        ctx.log("a rejected controller trace is not replayable (schedules of the Go runtime); rejected event: %s" % json.dumps(d["rejected"]))
+    else:
+        ctx.log("unknown replay format")
+
+
+def stress_traces(ctx, pid, binp):
+    """Free-running real nodes (3-node shard, concurrent writers, repeated elections and stream resets, nothing
+    gated): the schedules are the Go scheduler's, the verdict is TLC's on the recorded controller events."""
+    import subprocess
+    quick = ctx.tier == "quick"
+    files = []
+    for k in range(2 if quick else 12):
+        tf = os.path.join(ctx.scratch, "stress-%d.ndjson" % k)
+        env = dict(os.environ)
+        env["VERIF_TRACE"] = tf
+        try:
+            p = subprocess.run([binp, "stress", "-seed", str(ctx.seed * 100 + k), "-rounds", "2" if quick else "4"],
+                               env=env, capture_output=True, text=True, timeout=300)
+        except subprocess.TimeoutExpired:
+            ctx.log("stress run %d timed out (skipped)" % k)
+            continue
+        if p.returncode != 0:
+            ctx.log("stress run %d ended with exit %d (trace up to that point is still validated): %s" % (k, p.returncode, p.stderr[-200:]))
+        files.append(tf)
+    n = validate_node_traces(ctx, pid, files, "stress")
+    ctx.notes["stress_traces"] = n
+    for f in files:
+        if os.path.exists(f):
+            os.remove(f)
+
+
 def run(ctx, pid):
     quick = ctx.tier == "quick"
     ctx.assumptions += [
@@ -392,6 +528,10 @@ def run(ctx, pid):
     res = replay(ctx, binp, runs, "sim")
     other = report(ctx, pid, res, "sim")
     reached = findings_reached(ctx, pid, runs, res, "sim")
+    if pid in NODE_EVENTS:
+        repo_test_traces(ctx, pid)
+        stress_traces(ctx, pid, binp)
+        validate_node_traces(ctx, pid, res.get("nodetraces", []), "sim")
     if pid == "C02":
         linearizable(ctx, res, "sim")
     # the same with a spare node and a node swap (ensemble change, removed node deleted after the election)
